@@ -177,7 +177,26 @@ func (st *reState) match(re *syntax.Regexp, pos int, cond *sym.Term, k func(pos 
 			return false
 		}
 		return k(pos, cond)
-	case syntax.OpBeginLine, syntax.OpEndLine, syntax.OpWordBoundary, syntax.OpNoWordBoundary:
+	case syntax.OpWordBoundary, syntax.OpNoWordBoundary:
+		isWord := func(p int) *sym.Term {
+			if p < 0 || p >= len(st.units) {
+				return B.False
+			}
+			return st.unitIs(st.units[p], func(b rune) bool {
+				return b == '_' || (b >= '0' && b <= '9') || (b >= 'a' && b <= 'z') || (b >= 'A' && b <= 'Z')
+			})
+		}
+		a, z := isWord(pos-1), isWord(pos)
+		boundary := B.Not(B.Eq(a, z))
+		if re.Op == syntax.OpNoWordBoundary {
+			boundary = B.Not(boundary)
+		}
+		cur := B.And(cond, boundary)
+		if cur.IsFalse() {
+			return false
+		}
+		return k(pos, cur)
+	case syntax.OpBeginLine, syntax.OpEndLine:
 		st.c.Unsupported("regexp op %v with symbolic subject", re.Op)
 	case syntax.OpCapture:
 		old0, old1 := st.caps[2*re.Cap], st.caps[2*re.Cap+1]
